@@ -60,6 +60,27 @@ def _random_grid(rng, n):
 def gen_problem(rng, tier):
     n = rng.choice([2, 3, 3, 3, 4, 4, 4])
     g = _random_grid(rng, n)
+    return _finish(rng, n, g)
+
+
+def _big_grid(rng, n):
+    """A rule-obeying grid of any order without enumeration: a permuted cyclic Latin square over 0..n-1 in which the symbols
+    0 and 1 become black cells and symbol s >= 2 the number s - 1."""
+    rows, cols, syms = list(range(n)), list(range(n)), list(range(n))
+    rng.shuffle(rows)
+    rng.shuffle(cols)
+    rng.shuffle(syms)
+    return [[max(syms[(rows[y] + cols[x]) % n] - 1, 0) for x in range(n)] for y in range(n)]
+
+
+def extra_program_problems(rng):
+    """Larger boards for the program correspondence only (nothing is enumerated there; the board is square by construction):
+    n = 8, n = 17 and n = 16 (289 / 256 cells), sums read off a random rule-obeying grid, same clue modes as the small
+    boards."""
+    return [_finish(rng, n, _big_grid(rng, n), mode=rng.choice(["all", "some", "some", "noisy"])) for n in (8, 17, 16)]
+
+
+def _finish(rng, n, g, mode=None):
     max_sum = (n - 2) * (n - 1) // 2
     if g is None:
         rows = [rng.randint(-1, max_sum) for _ in range(n)]
@@ -67,7 +88,8 @@ def gen_problem(rng, tier):
         return {"n": n, "clue_row": rows, "clue_column": cols}
     rows = [_between(g[y]) for y in range(n)]
     cols = [_between([g[y][x] for y in range(n)]) for x in range(n)]
-    mode = rng.choice(["none", "all", "some", "some", "noisy"])
+    if mode is None:
+        mode = rng.choice(["none", "all", "some", "some", "noisy"])
     keep = {"none": 0.0, "all": 1.0, "some": 0.4, "noisy": 0.5}[mode]
     cr = [v if rng.random() < keep else -1 for v in rows]
     cc = [v if rng.random() < keep else -1 for v in cols]
